@@ -1,4 +1,4 @@
 SPECIFICATION Spec
 CONSTANTS Tier = "quick"
-INVARIANTS ThCovSym ThCovDiag ThCorr ThBand ThTable ThScale ThWScale ThCoeffIsC ThUnder ThDefined Export ExportUnder
+INVARIANTS ThCovSym ThCovDiag ThCorr ThBand ThTable ThScale ThCScale ThRepl ThWScale ThCoeffIsC ThUnder ThDefined Export ExportUnder
 CHECK_DEADLOCK FALSE
